@@ -327,6 +327,78 @@ func c08Run(w *vfWorld, p c08Point) (violated bool, key, what, class string, dir
 	return false, "", "", fmt.Sprintf("%s|allowed=%v|success=%v|changed=%v|%s", handler, allowed, success, len(changed) > 0, p.Target), dirty
 }
 
+// ---- (a') case-twin accounts: with disable_username_normalization "Admin" is not "admin"
+
+func c08CaseTwins(c *vfeng.Ctx) {
+	users := map[string]string{"admin": "admin-pw", "Admin": "capital-admin-pw", "ADMIN": "upper-admin-pw", "alice": "alice-pw", "bob": "bob-pw"}
+	mk := func() *vfWorld {
+		c08Dir.Groups = map[string][]string{"alice": {"staff"}}
+		c08Dir.Down = false
+		w := vfNewWorld(vfOpts{CertBackends: []string{"password"}, WebUIBackends: []string{"password"}, EnableTOTP: true, EnableBootstrap: true, Users: users, NoNormalize: true,
+			AdminUsers: []string{"admin"}, AutomationUsers: []string{vfAutoUser}, AutomationAdmins: []string{"autoadmin"}})
+		for _, u := range []string{"admin", "Admin", "ADMIN", "alice", "bob"} {
+			w.vfGiveTOTP(u, 1)
+			w.vfGiveU2F(u, 2)
+		}
+		return w
+	}
+	w := mk()
+	defer func() { w.Close() }()
+	type op struct {
+		name string
+		req  func() vfReq
+	}
+	ops := []op{
+		{"users-list", func() vfReq { return vfReq{Method: "GET", Path: usersPath} }},
+		{"add-user", func() vfReq { return vfReq{Method: "POST", Path: addUserPath, Form: url.Values{"username": {"newuser"}}} }},
+		{"delete-user", func() vfReq { return vfReq{Method: "POST", Path: deleteUserPath, Form: url.Values{"username": {"bob"}}} }},
+		{"bootstrap-otp", func() vfReq { return vfReq{Method: "POST", Path: generateBoostrapOTPPath, Form: url.Values{"username": {"bob"}}} }},
+		{"profile-view-other", func() vfReq { return vfReq{Method: "GET", Path: profilePath + "alice", Header: map[string]string{"Accept": "text/html"}} }},
+		{"u2f-Delete-other", func() vfReq {
+			return vfReq{Method: "POST", Path: u2fTokenManagementPath, Form: url.Values{"username": {"alice"}, "index": {"1"}, "action": {"Delete"}}}
+		}},
+		{"mint-automation", func() vfReq {
+			return vfReq{Method: "POST", Path: getRoleRequestingPath, Form: url.Values{"identity": {vfAutoUser}, "requestor_netblock": {vfRoleCIDR}, "target_netblock": {"10.10.0.0/16"}, "pubkey": {c11PubB64()}}}
+		}},
+	}
+	for _, actor := range []string{"admin", "Admin", "ADMIN"} {
+		for _, o := range ops {
+			// a real login with the name as typed, then the session raised to the U2F level the token operations ask for
+			lr := w.Do(vfReq{Method: "POST", Path: "/api/v0/login", Form: url.Values{"username": {actor}, "password": {users[actor]}}}.Build())
+			sub := ""
+			if v := c05SetCookie(lr); v != "" {
+				sub, _, _ = c05Decode(w, v)
+			}
+			if sub != actor {
+				c.Violate("C08|case-twins|login-identity|loginHandler", fmt.Sprintf("login as %q with normalisation disabled produced a session for %q", actor, sub), map[string]string{"part": "case-twins", "actor": actor})
+				continue
+			}
+			q := o.req()
+			q.Cookies = []*http.Cookie{w.vfCookie(actor, AuthTypePassword|AuthTypeU2F)}
+			before := c08Snap(w)
+			resp := w.Do(q.Build())
+			after := c08Snap(w)
+			c.Eval(1)
+			changed := before.changed(after)
+			ok := resp.Code/100 == 2 || resp.Code/100 == 3
+			pt := map[string]string{"part": "case-twins", "actor": actor, "op": o.name}
+			isAdmin := actor == "admin"
+			switch {
+			case !isAdmin && (ok || len(changed) > 0):
+				c.Violate("C08|admin-right-for-case-twin|"+o.name, fmt.Sprintf("%q (admin_users lists only \"admin\", normalisation disabled) performed %s: status %d, rows changed %v", actor, o.name, resp.Code, changed), pt)
+			case isAdmin && !ok && (o.name == "users-list" || o.name == "add-user" || o.name == "profile-view-other"):
+				c.Violate("C08|authorized-operation-refused|case-twins|"+o.name, fmt.Sprintf("the administrator was refused %s with %d", o.name, resp.Code), pt)
+			default:
+				c.Class(fmt.Sprintf("case-twins|%s|admin=%v|ok=%v", o.name, isAdmin, ok), pt)
+			}
+			if len(changed) > 0 {
+				w.Close()
+				w = mk()
+			}
+		}
+	}
+}
+
 // ---- (b) admin cache clause as an explicit-state system
 
 type c08CacheSys struct {
@@ -443,7 +515,7 @@ func init() {
 	vfRegister(&vfeng.Check{
 		ID:    "C08",
 		Level: "model_checking",
-		Rule:  "(a) exhaustive product web-UI requirement {[password],[U2F],[TOTP,U2F]} x actor (two plain users, admin by name, admin by group, automation admin, automation user, name-prefix of the admin) x credential (cookie at password/+TOTP/+VIP/+U2F/FIDO2-only level, keymaster client certificate, basic-auth) x operation (U2F and TOTP token Update/Disable/Enable/Delete, U2F register request/response with a real soft token, WebAuthn begin, TOTP generate, profile view, users list, add/delete user, bootstrap OTP, mint for automation/non-automation/admin name) x target (self, other, non-existent, empty, case variant) x token index (own, other kind, other user's, missing, negative, overflow) on the real handlers with before/after row digests; (b) BFS with canonical-state deduplication over {admin request, tick 1/4/5/6 min, demote, promote, directory down/up} for a group-admin on the real IsAdminUser/admincache path",
+		Rule:  "(a) exhaustive product web-UI requirement {[password],[U2F],[TOTP,U2F]} x actor (two plain users, admin by name, admin by group, automation admin, automation user, name-prefix of the admin) x credential (cookie at password/+TOTP/+VIP/+U2F/FIDO2-only level, keymaster client certificate, basic-auth) x operation (U2F and TOTP token Update/Disable/Enable/Delete, U2F register request/response with a real soft token, WebAuthn begin, TOTP generate, profile view, users list, add/delete user, bootstrap OTP, mint for automation/non-automation/admin name) x target (self, other, non-existent, empty, case variant) x token index (own, other kind, other user's, missing, negative, overflow) on the real handlers with before/after row digests; (a') with normalisation disabled, the accounts Admin and ADMIN (admin_users lists admin) on 7 administrative operations after a real login; (b) BFS with canonical-state deduplication over {admin request, tick 1/4/5/6 min, demote, promote, directory down/up} for a group-admin on the real IsAdminUser/admincache path",
 		Assumptions: []string{"the reference decision is written from the statement: self-service needs a session at the web-UI level; other users' tokens need admin + U2F bit; user administration needs admin; minting needs (automation) admin and an automation identity", "while the directory does not answer the cache may keep its last value"},
 		Shards: func(tier string) int { return 16 },
 		Run: func(c *vfeng.Ctx) {
@@ -489,6 +561,9 @@ func init() {
 				}
 				w.Close()
 			}
+			if c.Shard == c.NShards-1 {
+				c08CaseTwins(c)
+			}
 			// (b)
 			depth := 6
 			if c.Thorough() {
@@ -505,6 +580,17 @@ func init() {
 			}
 			if json.Unmarshal(raw, &h) == nil && len(h.History) > 0 {
 				return vfeng.ReplayHistory(&c08CacheSys{}, h.History)
+			}
+			var cp struct {
+				Part string `json:"part"`
+			}
+			if json.Unmarshal(raw, &cp) == nil && cp.Part == "case-twins" {
+				n := len(c.Res.Violations)
+				c08CaseTwins(c)
+				if len(c.Res.Violations) > n {
+					return true, c.Res.Violations[n].Key + " :: " + c.Res.Violations[n].What
+				}
+				return false, "case twins of the administrator have no admin rights"
 			}
 			var p c08Point
 			if err := json.Unmarshal(raw, &p); err != nil {
